@@ -388,9 +388,83 @@ def compare_elemwise(it, rt, fill_fn, sp_ops, np_ops):
         return f"shape {d.shape}, numpy {ref.shape}"
     if d.dtype != ref.dtype:
         return f"dtype {d.dtype}, numpy {ref.dtype}"
-    if not oracle.same_values(d, ref):
+    if not oracle.same_values(d, ref, signed_zero=True):
         return f"values differ: got {d.tolist()!r:.200} numpy {ref.tolist()!r:.200}"
     return None
+
+
+# ---------------------------------------------------------------------------------------------------
+# leg C, programs: in-place / out= forms and short sequences; every live array is compared with its NumPy twin
+# ---------------------------------------------------------------------------------------------------
+
+def leg_c_programs(ctx, rng, n):
+    import sparse
+
+    for it in range(n):
+        shp = gen.shape(rng, 1, 3, extents=[1, 2, 3, 4], max_size=60)
+        dt = rng.choice([np.float64, np.int64, np.float32, np.complex128])
+        fillraw = rng.choice([0, 0, 1])
+        d, f = typed_dense(rng, shp, dt, fillraw)
+        if np.dtype(dt).kind == "f":
+            d = np.where(rng.random(shp) < 0.3, -np.abs(d), d).astype(dt)  # negative entries: x*0.0 gives -0.0
+        fmt = str(rng.choice(["coo", "gcxs", "dok"]))
+        x, fd = gen.to_format(rng, d, fmt, f)
+        live = {"x": (x, d.copy())}
+        prog = []
+        names = ["y", "z", "w"]
+        failed = None
+        for step_i in range(int(rng.integers(2, 5))):
+            src = str(rng.choice(list(live)))
+            a, da = live[src]
+            op = str(rng.choice(["astype_same", "copy_op", "mul0", "neg", "inplace_mul", "inplace_add", "out_neg", "ceil_half", "recip", "copysign", "add_self", "round"]))
+            tgt = names[len(live) - 1] if len(live) <= len(names) else src
+            with warnings.catch_warnings():
+                warnings.simplefilter("ignore")
+                try:
+                    if op == "astype_same":
+                        r, dr = a.astype(a.dtype), da.astype(da.dtype)
+                    elif op == "copy_op":
+                        r, dr = +a, +da
+                    elif op == "mul0":
+                        r, dr = a * da.dtype.type(0), da * da.dtype.type(0)
+                    elif op == "neg":
+                        r, dr = -a, -da
+                    elif op == "ceil_half" and da.dtype.kind == "f":
+                        r, dr = np.ceil(a / 2), np.ceil(da / 2)
+                    elif op == "recip" and da.dtype.kind in "fc":
+                        r, dr = 1 / a, 1 / da
+                    elif op == "copysign" and da.dtype.kind == "f":
+                        r, dr = np.copysign(1, a), np.copysign(1, da)
+                    elif op == "add_self":
+                        r, dr = a + a, da + da
+                    elif op == "round" and da.dtype.kind in "fc":
+                        r, dr = a.round(0), da.round(0)
+                    elif op == "inplace_mul":
+                        a *= 2; da *= 2; r, dr, tgt = a, da, src
+                    elif op == "inplace_add":
+                        a += a; da += da; r, dr, tgt = a, da, src
+                    elif op == "out_neg":
+                        np.negative(a, out=a); np.negative(da, out=da); r, dr, tgt = a, da, src
+                    else:
+                        continue
+                except Exception as e:  # noqa: BLE001
+                    failed = f"step {op} on {src} raised {type(e).__name__}: {str(e)[:120]}"
+                    prog.append(f"{tgt} = {op}({src})")
+                    break
+            prog.append(f"{tgt} = {op}({src})")
+            live[tgt] = (r, dr)
+            # compare EVERY live array (an aliasing slip shows up on an array the step did not name)
+            for nm, (arr, den) in live.items():
+                got = arr.todense() if isinstance(arr, sparse.SparseArray) else np.asarray(arr)
+                if got.shape != den.shape or got.dtype != den.dtype or not oracle.same_values(got, den, signed_zero=True):
+                    failed = f"after `{prog[-1]}` array {nm} is {got.tolist()!r:.160} but NumPy's {nm} is {den.tolist()!r:.160} (dtype {got.dtype}/{den.dtype})"
+                    break
+            if failed:
+                break
+        case = {"format": fd, "dtype": str(np.dtype(dt)), "fill": repr(f), "dense": d.tolist(), "program": prog}
+        ctx.case(f"C:program:{fmt}", case)
+        if failed:
+            ctx.fail("C", "program", case, failed, finding=findings.classify(PID, "program", case, failed))
 
 
 def run(ctx):
@@ -401,6 +475,7 @@ def run(ctx):
     rng = gen.rng_for(ctx.seed, PID)
     leg_a(ctx, rng, 700 if ctx.quick else 7000)
     leg_c(ctx, rng, 700 if ctx.quick else 8000)
+    leg_c_programs(ctx, gen.rng_for(ctx.seed, PID + 'programs'), 250 if ctx.quick else 3000)
     leg_c_broadcast(ctx, gen.rng_for(ctx.seed, PID + ":broadcast_to"), 250 if ctx.quick else 4000)
     ctx.cov["rule"] = ("T1: all shape pairs (<=3 axes, extents 0..3) x is_result through the generated rule; leg A: broadcast_to (admissible targets, incompatible "
                        "extents, operands with more axes than the target) and 20 scalar functions "
